@@ -2,12 +2,12 @@ package checks
 
 import (
 	"bytes"
-	"regexp"
 	"encoding/json"
 	"fmt"
 	"io"
 	"math"
 	"math/big"
+	"regexp"
 	"sort"
 	"strconv"
 	"strings"
@@ -32,21 +32,21 @@ import (
 // in-memory text, judged with encoding/json as the independent reference.
 
 type writeCase struct {
-	Value      any
-	UseGen     bool
-	Opt        ojg.Options
-	Limit      int
-	Width      int
-	MaxDepth   int
-	Align      bool
-	FailCall   int
-	Deep       bool
+	Value    any
+	UseGen   bool
+	Opt      ojg.Options
+	Limit    int
+	Width    int
+	MaxDepth int
+	Align    bool
+	FailCall int
+	Deep     bool
 }
 
 func (c *writeCase) render() any {
 	return map[string]any{
 		"value": fmt.Sprintf("%#v", c.Value), "gen": c.UseGen,
-		"options": fmt.Sprintf("Indent=%d Tab=%v Sort=%v OmitNil=%v OmitEmpty=%v HTMLUnsafe=%v InitSize=%d", c.Opt.Indent, c.Opt.Tab, c.Opt.Sort, c.Opt.OmitNil, c.Opt.OmitEmpty, c.Opt.HTMLUnsafe, c.Opt.InitSize),
+		"options":     fmt.Sprintf("Indent=%d Tab=%v Sort=%v OmitNil=%v OmitEmpty=%v HTMLUnsafe=%v InitSize=%d", c.Opt.Indent, c.Opt.Tab, c.Opt.Sort, c.Opt.OmitNil, c.Opt.OmitEmpty, c.Opt.HTMLUnsafe, c.Opt.InitSize),
 		"write_limit": c.Limit, "pretty": fmt.Sprintf("width=%d maxDepth=%d align=%v", c.Width, c.MaxDepth, c.Align), "fail_write_call": c.FailCall,
 	}
 }
@@ -381,7 +381,9 @@ func propC04(cx *sim.Ctx) {
 		if len(sw.Calls) >= 2 {
 			sim.Probe("stream_flushed_2plus_times")
 		}
-		if len(sw.Calls) >= 3 {
+		if len(sw.Calls) >= 3 && deterministic {
+			// (with Go's random map order the number of flushes is not a function of the seed; such
+			// cases are judged all the same but are not used for the non-trivial count)
 			cx.NonTrivial()
 		}
 		for _, wc := range sw.Calls[1:] {
